@@ -8,7 +8,7 @@ import asyncio
 import heapq
 from asyncio import events, tasks as _tasks
 
-from vfw.prelude import is_engine_exc
+from vfw.prelude import is_engine_exc, refuel, StepBound
 
 
 class Deadlock(Exception):
@@ -43,6 +43,7 @@ class PyTask(_tasks._PyTask):
             reg.append(self)
 
     def _Task__step(self, exc=None):
+        refuel()
         _tasks._PyTask._Task__step(self, exc)
         if self.done() and not self.cancelled():
             e = self._exception
@@ -99,6 +100,8 @@ def run(main_factory, *, loop=None, shutdown=True, result=None):
             outcome = ('ok', loop.run_until_complete(main_factory()))
         except Deadlock as d:
             outcome = ('hang', str(d))
+        except StepBound as d:
+            outcome = ('livelock', str(d))
         except Exception as e:  # noqa
             outcome = ('exc', e)
         if shutdown:
@@ -110,10 +113,13 @@ def run(main_factory, *, loop=None, shutdown=True, result=None):
                     loop.run_until_complete(asyncio.gather(*pend, return_exceptions=True))
                 loop.run_until_complete(loop.shutdown_asyncgens())
             except Deadlock as d:
-                if outcome[0] != 'hang':
+                if outcome[0] not in ('hang', 'livelock'):
                     outcome = ('shutdown-hang', str(d))
+            except StepBound as d:
+                if outcome[0] not in ('hang', 'livelock'):
+                    outcome = ('shutdown-livelock', str(d))
             except RuntimeError as e:
-                if outcome[0] != 'hang':
+                if outcome[0] not in ('hang', 'livelock'):
                     outcome = ('shutdown-error', repr(e))
     finally:
         asyncio.set_event_loop(None)
@@ -133,6 +139,6 @@ def close_leftovers(loop):
         try:
             t._coro.close()
         except BaseException as e:  # noqa
-            if is_engine_exc(e):
+            if is_engine_exc(e) and not isinstance(e, StepBound):
                 raise
     loop.vtasks = []
